@@ -148,7 +148,7 @@ def readDec (s : List Char) : Option Nat :=
 def minSizeLevel (id v maxSfl : Nat) : Nat :=
   let sizes : List (Nat × Nat) :=
     if id = 1 then rsaSizes else (symSizes.filter (·.1 == id)).map (fun (_, b, s) => (b, s))
-  ((sizes.filter (fun (b, s) => decide (b ≥ v) && decide (s ≤ maxSfl))).map (·.2)).foldl max (if id = 35 then 1 else 0)
+  ((sizes.filter (fun (b, s) => decide (b ≥ v) && decide (s ≤ maxSfl))).map (·.2)).foldl max 0
 
 def curveSfl (id : Nat) : Nat := ((eccSfl.find? (·.1 == id)).map (·.2)).getD 1
 /-- curves of a shortcut that need more than the allowed level are skipped; a curve named alone is refused (`algToken`) -/
